@@ -79,3 +79,44 @@ PROPS["C08"] = {
     ],
     "floors": {"any": {"operations": 20000, "invariant_checks": 500000, "redundancy_events": 50, "symmetry_events": 50}},
 }
+
+PROPS["C10"] = {
+    "rule": "cases: (exhaustive) every set of 1-3 permutations on 1..4 slots (2324 sets on four slots), each asserted as unions of a multi-slot leaf with its "
+            "permuted copies (both assertion orders) and fed to the group structure directly through the hook (every incremental split between "
+            "construction and add_set); all n! membership queries per set, all_perms set/duplicates, count, orbits, add_set growth flag, against brute-force closure. "
+            "(random) 1-3 generators on 5 and 6 slots with all 120/720 queries. (symred) a leaf with a slot made redundant first and symmetries moving "
+            "redundant slots, judged by the ground closure oracle in both directions. Non-trivial = generator set generating a non-trivial group "
+            "(distinct by enumeration / by hash of the sorted generator list) or symred history with an effective union and a derived equality.",
+    "exhaustive": {"quick": True, "thorough": True},
+    "assumptions": ["brute-force closure by BFS over explicit permutation tables is correct", "exhaustive: true refers to the generator sets on <= 4 slots; 5/6 slots and the redundancy variant are sampled"],
+    "quick": [
+        {"variant": "default", "cases": 300, "params": {"exh_n": 4}, "timeout": 600},
+        {"variant": "default", "cases": 1500, "params": {"profile": "symred"}, "worker_prop": "C10red", "timeout": 600},
+    ],
+    "thorough": [
+        {"variant": "default", "cases": 30000, "params": {"exh_n": 4}, "timeout": 3000},
+        {"variant": "checks", "cases": 3000, "params": {"exh_n": 4}, "timeout": 3000},
+        {"variant": "explanations", "cases": 1000, "params": {"exh_n": 4}, "timeout": 3000},
+        {"variant": "default", "cases": 40000, "params": {"profile": "symred"}, "worker_prop": "C10red", "timeout": 3000},
+    ],
+    "floors": {"any": {"generator_sets": 2600, "egraph_membership_queries": 100000, "direct_observations": 100000, "sets_with_non_involution": 1000, "random_sets_5": 50, "random_sets_6": 50}},
+}
+
+PROPS["C09"] = {
+    "rule": "cases: an e-graph reached by a generated add/union history (as C01) plus wrapper terms; up to 14 probes per e-graph: literal re-insertion, "
+            "alpha-variant, injectively renamed copy, copy with a subterm replaced by a term united with it earlier, closed subterms, random (possibly absent) terms. "
+            "Per probe: lookup_rec_expr must not change the fingerprint (progress, node count, ids), lookup.is_some() == (add_expr allocated no class), "
+            "lookup == add (eq), known terms allocate nothing and equal the original renamed, slots = oracle support and are equivariant, re-add idempotent. "
+            "Non-trivial = distinct history with >=1 non-literal present probe.",
+    "assumptions": ["class allocation is observed through progress().number_of_classes"],
+    "quick": [
+        {"variant": "default", "cases": 4000, "timeout": 600},
+        {"variant": "explanations", "cases": 800, "timeout": 600},
+    ],
+    "thorough": [
+        {"variant": "default", "cases": 400000, "timeout": 3000},
+        {"variant": "checks", "cases": 60000, "timeout": 3000},
+        {"variant": "explanations", "cases": 40000, "timeout": 3000},
+    ],
+    "floors": {"any": {"lookups": 20000, "present_probes": 10000, "probe_equal_subterm": 500, "probe_renamed": 1000, "probe_created_class": 500, "slot_sets_vs_oracle": 5000}},
+}
